@@ -417,24 +417,15 @@ def arity(repo: Repo, rep, P: str, mc):
     if passed is None:
         rep.inconclusive(f"{P}.R1", f"{rel}:MultiCtl.macro", "", "no `mappings=` argument found", f"{rel}:{macro.lineno}")
     else:
-        found = False
-        for c in walk_no_nested(macro):
-            if isinstance(c, ast.Call) and norm(c.func) == f"{passed}.append" and c.args:
-                found = True
+        shape = _shape_of_name(repo, mc, macro, passed)
+        tuples = _element_tuples(shape)
+        if tuples is None or not tuples:
+            rep.inconclusive(f"{P}.R1", f"{rel}:MultiCtl.macro", passed, f"no append of mapping tuples found (shape {_show_shape(shape)})",
+                             f"{rel}:{macro.lineno}")
+        else:
+            for n_fields, node in tuples:
                 sites += 1
-                a = c.args[0]
-                if isinstance(a, ast.Tuple):
-                    _check_len(rep, P, rel, f"{rel}:MultiCtl.macro", norm(c)[:120], len(a.elts), need, c)
-                elif isinstance(a, ast.BinOp) and isinstance(a.op, ast.Add):
-                    n = _tuple_len(repo, mc, a)
-                    if n is None:
-                        rep.inconclusive(f"{P}.R1", f"{rel}:MultiCtl.macro", norm(c)[:120], "tuple length not constant", f"{rel}:{c.lineno}")
-                    else:
-                        _check_len(rep, P, rel, f"{rel}:MultiCtl.macro", norm(c)[:120], n, need, c)
-                else:
-                    rep.inconclusive(f"{P}.R1", f"{rel}:MultiCtl.macro", norm(c)[:120], "appended mapping is not a tuple literal", f"{rel}:{c.lineno}")
-        if not found:
-            rep.inconclusive(f"{P}.R1", f"{rel}:MultiCtl.macro", passed, "no append of mapping tuples found", f"{rel}:{macro.lineno}")
+                _check_len(rep, P, rel, f"{rel}:MultiCtl.macro", norm(node)[:120], n_fields, need, node)
     # (c) the constructor hands each element of the keyword to Mapping(...)
     init = mc.methods.get("__init__")
     s = norm(init) if init else ""
@@ -445,6 +436,148 @@ def arity(repo: Repo, rep, P: str, mc):
                          f"{rel}:{init.lineno if init else 0}")
     rep.count("mapping_construction_sites", sites, 2)
     # (d) encoded_values order = destructuring order (shared with C02 R4) is checked there
+
+
+# shapes: ("tup", [shapes], node) | ("list", [element shapes]) | ("scalar",) | ("?", why)
+def _shape_of_name(repo: Repo, mc, fn: ast.FunctionDef, name: str, depth: int = 0):
+    return _Shapes(repo, mc, fn, depth).name(name)
+
+
+class _Shapes:
+    """What a local of MultiCtl.macro holds, as far as tuple arity goes: tuple displays, lists built by append / comprehension,
+    values returned by the class's private helpers, and tuple-target unpacking of all of these."""
+
+    def __init__(self, repo: Repo, mc, fn: ast.FunctionDef, depth: int = 0):
+        self.repo, self.mc, self.fn, self.depth = repo, mc, fn, depth
+        self.env: Dict[str, tuple] = {}
+        self.busy: set = set()
+
+    def name(self, nm: str):
+        if nm in self.env:
+            return self.env[nm]
+        if nm in self.busy:
+            return ("?", f"recursive {nm}")
+        self.busy.add(nm)
+        shapes = []
+        for n in walk_no_nested(self.fn):
+            if isinstance(n, ast.Assign):
+                for t in n.targets:
+                    if isinstance(t, ast.Name) and t.id == nm:
+                        shapes.append(self.expr(n.value))
+                    elif isinstance(t, (ast.Tuple, ast.List)):
+                        for i, e in enumerate(t.elts):
+                            if isinstance(e, ast.Name) and e.id == nm:
+                                v = self.expr(n.value)
+                                shapes.append(v[1][i] if v[0] == "tup" and i < len(v[1]) else ("?", f"unpacking {norm(n.value)[:40]}"))
+            if isinstance(n, ast.Call) and isinstance(n.func, ast.Attribute) and norm(n.func.value) == nm and n.func.attr == "append" and len(n.args) == 1:
+                shapes.append(("list", [self.expr(n.args[0])]))
+            if isinstance(n, (ast.For, ast.comprehension)):
+                self._bind(n.target, n.iter, nm, shapes)
+        for a in self.fn.args.args + self.fn.args.kwonlyargs:
+            if a.arg == nm:
+                shapes.append(("scalar",))
+        self.busy.discard(nm)
+        out = self._join(shapes) if shapes else ("?", f"{nm} unbound")
+        self.env[nm] = out
+        return out
+
+    def _bind(self, target, it, nm, shapes):
+        def elem(sh):
+            if sh[0] == "list":
+                return self._join(sh[1]) if sh[1] else ("?", "empty list")
+            return ("scalar",) if sh[0] == "scalar" else ("?", "iteration over " + sh[0])
+
+        def walk(t, sh):
+            if isinstance(t, ast.Name):
+                if t.id == nm:
+                    shapes.append(sh)
+            elif isinstance(t, (ast.Tuple, ast.List)):
+                for i, e in enumerate(t.elts):
+                    walk(e, sh[1][i] if sh[0] == "tup" and i < len(sh[1]) else (("scalar",) if sh[0] == "scalar" else ("?", "unpacking")))
+        if any(isinstance(x, ast.Name) and x.id == nm for x in ast.walk(target)):
+            walk(target, elem(self.expr(it)))
+
+    def _join(self, shapes):
+        lists = [s for s in shapes if s[0] == "list"]
+        if lists and len(lists) == len(shapes):
+            return ("list", [e for s in lists for e in s[1]])
+        if len(shapes) == 1:
+            return shapes[0]
+        tups = [s for s in shapes if s[0] == "tup"]
+        if tups and len(tups) == len(shapes):
+            return ("alts", tups)
+        if all(s[0] == "scalar" for s in shapes):
+            return ("scalar",)
+        bad = [s for s in shapes if s[0] == "?"]
+        return bad[0] if bad else ("?", "mixed shapes")
+
+    def expr(self, e: ast.expr):
+        if isinstance(e, ast.Tuple):
+            return ("tup", [self.expr(x) for x in e.elts], e)
+        if isinstance(e, ast.List):
+            return ("list", [self.expr(x) for x in e.elts])
+        if isinstance(e, ast.Name):
+            return self.name(e.id)
+        if isinstance(e, (ast.ListComp, ast.GeneratorExp)) and len(e.generators) == 1:
+            sub = _Shapes(self.repo, self.mc, self.fn, self.depth)
+            sub.env = dict(self.env)
+            # the comprehension target shadows: evaluate the element with the target bound
+            tmp: list = []
+            g = e.generators[0]
+            for x in ast.walk(g.target):
+                if isinstance(x, ast.Name):
+                    got: list = []
+                    self._bind(g.target, g.iter, x.id, got)
+                    sub.env[x.id] = got[0] if got else ("?", "unbound target")
+            return ("list", [sub.expr(e.elt)])
+        if isinstance(e, ast.Call) and norm(e.func) in ("list", "tuple", "sorted", "reversed") and len(e.args) == 1:
+            return self.expr(e.args[0])
+        if isinstance(e, ast.BinOp) and isinstance(e.op, ast.Add):
+            l, r = self.expr(e.left), self.expr(e.right)
+            if l[0] == r[0] == "tup":
+                return ("tup", l[1] + r[1], e)
+            if l[0] == r[0] == "list":
+                return ("list", l[1] + r[1])
+        if isinstance(e, ast.BinOp) and isinstance(e.op, ast.Mult):
+            try:
+                v = self.repo.fold(e, ci=self.mc)
+                if isinstance(v, tuple):
+                    return ("tup", [("scalar",)] * len(v), e)
+            except NotConst:
+                pass
+        if isinstance(e, ast.Call) and isinstance(e.func, ast.Attribute) and norm(e.func.value) in ("self", "cls", self.mc.name) \
+                and e.func.attr in self.mc.methods and e.func.attr.startswith("_") and self.depth < 3:
+            h = self.mc.methods[e.func.attr]
+            rets = [r.value for r in walk_no_nested(h) if isinstance(r, ast.Return) and r.value is not None]
+            sub = _Shapes(self.repo, self.mc, h, self.depth + 1)
+            return self._join([sub.expr(r) for r in rets]) if rets else ("?", "helper returns nothing")
+        if isinstance(e, (ast.Constant, ast.Attribute, ast.BinOp, ast.Call, ast.Subscript, ast.Compare, ast.BoolOp, ast.UnaryOp, ast.IfExp)):
+            return ("scalar",)
+        return ("?", norm(e)[:40])
+
+
+def _element_tuples(shape):
+    """[(number of fields, node)] for the tuple displays that are elements of a list shape; None when the shape is not a list of tuples."""
+    if shape[0] != "list":
+        return None
+    out = []
+    for el in shape[1]:
+        alts = el[1] if el[0] == "alts" else [el]
+        for a in alts:
+            if a[0] != "tup":
+                return None
+            out.append((len(a[1]), a[2]))
+    return out
+
+
+def _show_shape(shape) -> str:
+    if shape[0] == "tup":
+        return f"tuple[{len(shape[1])}]"
+    if shape[0] == "list":
+        return "list[" + ", ".join(sorted({_show_shape(x) for x in shape[1]})) + "]"
+    if shape[0] == "alts":
+        return " | ".join(_show_shape(x) for x in shape[1])
+    return shape[0] if shape[0] != "?" else f"?({shape[1]})"
 
 
 def _tuple_len(repo, ci, e) -> Optional[int]:
